@@ -11,6 +11,7 @@
    allocation), which also compares the C's live-block counts with [owned]. *)
 From Coq Require Import ZArith List Bool Permutation.
 From A1 Require Import Rt.Types Rt.Heap Rt.HeapProofs Rt.Der Rt.DerProofs Rt.HeapX Rt.HeapXProofs.
+From A1 Require Rt.HeapW Rt.HeapWProofs.
 Import ListNotations.
 
 (* every FREEMEM a free method performs hits a block the structure owns, every owned block is
@@ -176,3 +177,49 @@ Theorem C14_fail_in_addition_lifecycle : forall oerd tg root adds vs j,
   apply_free t FreeUnderlyingAndReset (owned t true [] s) s = (Some [([], KStruct)], Some (zero t)).
 Proof. exact fail_in_addition_lifecycle. Qed.
 Print Assumptions C14_fail_in_addition_lifecycle.
+
+
+(* ---- round c14w: the element loop of the list decoders and the dynamic-buffer encoder wrapper (coq/Rt/HeapW.v) ---- *)
+Module W.
+Import A1.Rt.HeapW A1.Rt.HeapWProofs.
+
+(* every error exit after k successful appends leaves each block owned exactly once *)
+Theorem C14_list_exit_owned_once : forall k x, exists s,
+  list_run Correct k x = Some s /\ NoDup (live s) /\ NoDup (owners s) /\ Permutation (live s) (owners s).
+Proof. exact list_exit_owned_once. Qed.
+Print Assumptions C14_list_exit_owned_once.
+
+Theorem C14_list_exit_free_balanced : forall k x, list_lifecycle Correct k x = Some [].
+Proof. exact list_exit_free_balanced. Qed.
+Print Assumptions C14_list_exit_free_balanced.
+
+(* the shared-exit variant: double free for every k *)
+Theorem C14_list_shared_exit_double_free : forall k, list_lifecycle SharedExit k XBomb = None.
+Proof. exact list_shared_exit_double_free. Qed.
+Print Assumptions C14_list_shared_exit_double_free.
+
+Theorem C14_list_shared_exit_refuted : exists k x, list_lifecycle SharedExit k x <> Some [].
+Proof. exact list_shared_exit_refuted. Qed.
+Print Assumptions C14_list_shared_exit_refuted.
+
+(* the wrapper owns the buffer until success; on failure it is released exactly once *)
+Theorem C14_dyn_wrapper_balanced : forall script enc_ok, exists d r,
+  dyn_run DCorrect script enc_ok = Some (d, r) /\ dlive d = opt_l r.
+Proof. exact dyn_wrapper_balanced. Qed.
+Print Assumptions C14_dyn_wrapper_balanced.
+
+Theorem C14_dyn_wrapper_failure_frees : forall script enc_ok d,
+  dyn_run DCorrect script enc_ok = Some (d, None) -> dlive d = [].
+Proof. exact dyn_wrapper_failure_frees. Qed.
+Print Assumptions C14_dyn_wrapper_failure_frees.
+
+(* the no-free variant leaks for every script that reached the callback *)
+Theorem C14_dyn_nofree_leaks : forall script, script <> [] -> Forall (fun c => snd c = true) script ->
+  exists d b, dyn_run NoFree script false = Some (d, None) /\ dlive d = [b].
+Proof. exact dyn_nofree_leaks. Qed.
+Print Assumptions C14_dyn_nofree_leaks.
+
+Theorem C14_dyn_nofree_refuted : exists script enc_ok d, dyn_run NoFree script enc_ok = Some (d, None) /\ dlive d <> [].
+Proof. exact dyn_nofree_refuted. Qed.
+Print Assumptions C14_dyn_nofree_refuted.
+End W.
